@@ -88,6 +88,7 @@ impl Mix {
 static HOOK_INSTALLED: AtomicBool = AtomicBool::new(false);
 thread_local! {
     static LAST_PANIC: std::cell::RefCell<Option<String>> = const { std::cell::RefCell::new(None) };
+    static GUARD_DEPTH: std::cell::Cell<u32> = const { std::cell::Cell::new(0) };
 }
 pub fn install_panic_hook() {
     if HOOK_INSTALLED.swap(true, AO::SeqCst) {
@@ -102,12 +103,19 @@ pub fn install_panic_hook() {
         } else {
             "<non-string panic>".to_string()
         };
+        if GUARD_DEPTH.with(|d| d.get()) == 0 {
+            // nobody will catch this one: say what it was (the process then ends with the panic exit code, which is not 0 or 1)
+            eprintln!("INCONCLUSIVE harness panic outside an engine call: {} @ {}", msg, loc);
+        }
         LAST_PANIC.with(|p| *p.borrow_mut() = Some(format!("{} @ {}", msg, loc)));
     }));
 }
 /// Runs `f`, turning a panic into `Err(message @ location)`.
 pub fn guard<T>(f: impl FnOnce() -> T) -> Result<T, String> {
-    match catch_unwind(AssertUnwindSafe(f)) {
+    GUARD_DEPTH.with(|d| d.set(d.get() + 1));
+    let r = catch_unwind(AssertUnwindSafe(f));
+    GUARD_DEPTH.with(|d| d.set(d.get().saturating_sub(1)));
+    match r {
         Ok(v) => Ok(v),
         Err(_) => Err(LAST_PANIC.with(|p| p.borrow_mut().take()).unwrap_or_else(|| "panic".to_string())),
     }
@@ -763,6 +771,8 @@ pub enum WorkerEnd {
     /// died by a signal / abnormal exit code: (description, last traced case if any)
     Crashed(String, Option<J>),
     TimedOut(Option<J>),
+    /// the worker could not be started or waited for: says nothing about the code under test
+    Infra(String),
 }
 
 fn spawn_worker(prop: &str, family: &str, shard: u64, nshards: u64, seed: u64, tier: Tier, out: &Path, trace: Option<&Path>, timeout_s: u64) -> WorkerEnd {
@@ -777,7 +787,7 @@ fn spawn_worker(prop: &str, family: &str, shard: u64, nshards: u64, seed: u64, t
     let _ = std::fs::remove_file(out);
     let mut child = match cmd.spawn() {
         Ok(c) => c,
-        Err(e) => return WorkerEnd::Crashed(format!("cannot spawn worker: {e}"), None),
+        Err(e) => return WorkerEnd::Infra(format!("cannot spawn worker: {e}")),
     };
     let t0 = Instant::now();
     let traced = |trace: Option<&Path>| trace.and_then(|t| std::fs::read_to_string(t).ok()).and_then(|s| serde_json::from_str::<J>(&s).ok());
@@ -803,7 +813,7 @@ fn spawn_worker(prop: &str, family: &str, shard: u64, nshards: u64, seed: u64, t
                 }
                 std::thread::sleep(std::time::Duration::from_millis(20));
             }
-            Err(e) => return WorkerEnd::Crashed(format!("wait failed: {e}"), None),
+            Err(e) => return WorkerEnd::Infra(format!("wait failed: {e}")),
         }
     }
 }
@@ -831,7 +841,7 @@ pub fn run_in_workers(rep: &Report, family: &str, nshards: u64, timeout_s: u64, 
                 }
                 let out = dir.join(format!("w_{}_{}_{}_{}.json", rep.prop, family, shard, std::process::id()));
                 let mut end = spawn_worker(&rep.prop, family, shard, nshards, rep.seed, rep.tier, &out, None, timeout_s);
-                if !matches!(end, WorkerEnd::Done) {
+                if !matches!(end, WorkerEnd::Done | WorkerEnd::Infra(_)) {
                     // pinpoint: same shard, trace mode (generation is a pure function of the seed)
                     let tr = dir.join(format!("t_{}_{}_{}_{}.json", rep.prop, family, shard, std::process::id()));
                     let _ = std::fs::remove_file(&tr);
@@ -867,6 +877,7 @@ pub fn run_in_workers(rep: &Report, family: &str, nshards: u64, timeout_s: u64, 
                             }
                         }
                     }
+                    WorkerEnd::Infra(why) => rep.inconclusive(&format!("{family}: worker {shard}: {why}")),
                     WorkerEnd::Crashed(desc, case) => on_abnormal(rep, shard, &desc, case, false),
                     WorkerEnd::TimedOut(case) => on_abnormal(rep, shard, "timed out", case, true),
                 }
